@@ -8,6 +8,7 @@ mod delta;
 mod flock;
 mod image;
 mod seglog;
+mod seek;
 mod shards;
 mod iohook;
 mod leafupd;
@@ -71,6 +72,7 @@ fn main() {
         "delta-log" => delta::run_log(seed, cases, &mut sink),
         "overflow" => overflow::run(seed, cases, &mut sink),
         "leafupd" => leafupd::run(seed, cases, &mut sink),
+        "seek" => seek::run(seed, cases, &mut sink),
         "core-pp" => core_pp::run(seed, cases, &mut sink),
         "core-mp" => core_mp::run(seed, cases, &mut sink),
         "core-mp-corpus" => {
